@@ -222,7 +222,7 @@ def spread(draw, lo, hi, first):
 def row_lengths(draw, min_rows=1, big=False, max_len=9):
     kinds = ["small", "cross10", "small", "cross10", "small", "cross100", "small", "cross10", "small", "small"]
     if big:
-        kinds = ["big", "small", "cross100", "cross10", "big", "small", "cross100", "big"]
+        kinds = ["big", "small", "cross100", "cross10", "big", "small", "cross100", "big", "cross1000"]
     kind = pick(draw, kinds)
     if kind == "small":
         n = spread(draw, min_rows, 8, 3)
@@ -230,6 +230,8 @@ def row_lengths(draw, min_rows=1, big=False, max_len=9):
         n = draw(st.integers(9, 12))
     elif kind == "cross100":
         n = draw(st.integers(98, 102))
+    elif kind == "cross1000":        # four-digit row keys
+        n = draw(st.integers(998, 1003))
     else:
         n = draw(st.integers(13, 250))
     pattern = pick(draw, ["ragged", "equal", "one_off", "ragged"])
@@ -896,7 +898,7 @@ CLAUSES = [
     Clause("stride_single", single_case(), run_stride_single, quick=200, thorough=2000),
     Clause("keys", ragged_case(min_rows=2, with_keys=True), run_keys, quick=240, thorough=3000),
     Clause("striped_h5", striped_case(), run_striped_h5, quick=160, thorough=2000),
-    Clause("roundtrip_big", roundtrip_case(big=True), run_roundtrip, quick=0, thorough=1000),
+    Clause("roundtrip_big", roundtrip_case(big=True), run_roundtrip, quick=8, thorough=1000),
     Clause("keys_big", ragged_case(min_rows=2, big=True, with_keys=True), run_keys, quick=0, thorough=600),
     Clause("bulk_concat", bulk_case(), run_bulk_concat, quick=72, thorough=400),
     Clause("bulk_schedule", bulk_case(n_configs=2), run_bulk_schedule, quick=32, thorough=200),
